@@ -164,6 +164,10 @@ class Life:
         self.ctx_log = []
         self.completions = {}
         self.accepted = {}  # runner key -> [(time, trade)]
+        self.executed_packages = set()
+        self.reused_trades = set()  # trades that received an order after they had completed (outside the domain of a/b/d/e)
+        self.tainted = set()  # runner keys of such trades
+        self.keep_packages = []
         self.upd = 0  # index of the update being processed (0 = initial image)
         self.reported = set()
 
@@ -194,7 +198,7 @@ class Life:
                 self.v("C03.c", (site, "complete-flag", "%s->%s" % (p, n)), "order reported complete became live again: %s -> %s at %s" % (p, n, site))
 
     def trade_status(self, w, t, prev, new, site):
-        if "C10" in self.en:
+        if "C10" in self.en and id(t) not in self.reused_trades:
             p, n = sname(prev), sname(new)
             self.c("clause:C10.e")
             ok = {
@@ -214,6 +218,7 @@ class Life:
     # -- requests: C03.b (+ snapshot for refused requests)
     def pre_action(self, w, st, market, act, o):
         self.pre = (snapshot(w, o), self._can(o, act)) if act[0] in ("C", "U", "R") else None
+        self.trade_was_complete = act[0] == "P" and o is not None and sname(o.trade.status) == "COMPLETE"
 
     def _can(self, o, act):
         k = act[0]
@@ -279,9 +284,23 @@ class Life:
             if d:
                 self.v("C02.a", (k, _viol_control(o), st_before, d[0]), "refused %s changed %s" % (k, d))
 
-    # -- execution bookkeeping for C04.e
+    # -- execution bookkeeping for C04.e; C03: one operation in flight
     def pre_execute(self, w, package):
         self.executed_now.append(package.package_type.name)
+        if "C03" in self.en:
+            t = package.package_type.name
+            want = {"CANCEL": "CANCELLING", "UPDATE": "UPDATING", "REPLACE": "REPLACING", "PLACE": "PENDING"}[t]
+            for o in package._orders:
+                self.c("clause:C03.b")
+                st = sname(o.status)
+                # the order either still waits for exactly this request or has completed meanwhile
+                if st not in (want, "EXECUTION_COMPLETE", "VIOLATION"):
+                    self.v("C03.b", (st, t.lower(), "executed-without-request"), "a %s reaches the exchange for an order in status %s (a second operation for one order, or a stale request)" % (t, st))
+            key = id(package)
+            if key in self.executed_packages:
+                self.v("C03.b", ("-", t.lower(), "package-executed-twice"), "the same %s package was executed twice" % t)
+            self.executed_packages.add(key)
+            self.keep_packages.append(package)
 
     # -- sampling points
     def after_mw(self, w, market):
@@ -399,6 +418,8 @@ class Life:
             for o in placed:
                 by_ctx.setdefault(o.lookup, []).append(o)
             for lookup, orders in by_ctx.items():
+                if (lookup[0], lookup[1], lookup[2], id(st)) in self.tainted:
+                    continue
                 rc = st.get_runner_context(*lookup)
                 trades = []
                 for o in orders:
@@ -437,6 +458,12 @@ class Life:
         key = (o.market_id, o.selection_id, o.handicap, id(st))
         now = _now()
         t = o.trade
+        if getattr(self, "trade_was_complete", False):
+            # an order added to an already completed trade: only the limits at acceptance (clause c) are judged
+            self.c("orders_added_to_completed_trade")
+            if out is True:
+                self.reused_trades.add(id(t))
+                self.tainted.add(key)
         acc = self.accepted.setdefault(key, [])
         others = [x for x in market.blotter.strategy_selection_orders(st, o.selection_id, o.handicap) if x is not o]
         live_trades = []
@@ -472,7 +499,7 @@ class Life:
             acc.append((now, t))
         elif out is False:
             msg = o.violation_msg or ""
-            if "strategy.validate_order failed" in msg:
+            if "strategy.validate_order failed" in msg and key not in self.tainted and not getattr(self, "trade_was_complete", False):
                 self.c("clause:C10.d")
                 self.c("refused_by_accounting")
                 all_complete = all(x.complete for x in others)
